@@ -16,8 +16,8 @@ SilentPending == (pc = "burn" /\ i = b) \/ (pc = "loop" /\ i = n * t)
 Is(e) == T.what = "run" /\ ~SilentPending /\ l <= Len(T.events) /\ Ev.ev = e
 Adv == l' = l + 1 /\ UNCHANGED tid
 
-TReset == Is("reset") /\ Check(tid, l, "reset-first", pc = "reset") /\ Reset /\ Adv
-TSetRng == Is("set_rng") /\ Check(tid, l, "set_rng-after-reset", pc = "setrng") /\ SetRng /\ Adv
+TReset == Is("reset") /\ Check(tid, l, "reset-once-before-any-step", pc = "reset" /\ nreset = 0) /\ Reset /\ Adv
+TSetRng == Is("set_rng") /\ Check(tid, l, "generator-handed-over-once-before-any-step", pc = "reset" /\ nsetrng = 0) /\ SetRng /\ Adv
 \* a logged step is a burn-in step or a loop step; the loop exits BurnDone / LoopDone are silent steps of the trace
 TStep == /\ Is("step")
          /\ Check(tid, l, "step-allowed-here", (pc = "burn" /\ i < b) \/ (pc = "loop" /\ i < n * t))
